@@ -2284,6 +2284,11 @@ ORACLES = {
 }
 
 
+from harness.props import c06_r1516 as r1516   # noqa: E402  (R15 / R16: close values, buffer reuse)
+
+ORACLES.update(r1516.ORACLES)
+
+
 def run_oracle(ctx, call, case, key=None, nontrivial=True):
     ctx.count((call, key if key is not None else repr(case)), nontrivial)
     try:
@@ -2470,6 +2475,7 @@ def corr_scripts(ctx, drv, name, gen, count, long=False):
             ctx.branch('script:result-names-in-different-order')
         if getattr(im, 'np_updates', 0):
             ctx.branch('script:R1:np-scalars', im.np_updates)
+        r1516.note_script(ctx, im)
         sc = getattr(im, 'scale', (0, 0))
         if max(sc) >= 20:
             ctx.branch('script:R6:scale-1e12')
@@ -2592,6 +2598,7 @@ def correspondence(ctx, quick):
     corr_scripts(ctx, drv, 'combine.script', gen_combine_script, 300 * k, long=not quick)
     corr_scripts(ctx, drv, 'combine.script', lambda rng, long: big_script(rng), 1 if quick else 3)
     ctx.branch('script:R14:260-combinations')
+    r1516.correspondence(ctx, drv, quick)
     corr_trees(ctx, drv, 600 * k, 40 if quick else 120)
     corr_float_stream(ctx, drv, 100 * k)
 
@@ -2844,7 +2851,7 @@ def check(ctx):
                              'R8:params-by-replacement', 'R9:count-numpy', 'R9:index-above-256', 'R2:container-m',
                              'R11:queries', 'R13:derived-objects', 'R14:300-chunks', 'R14:258-result-names',
                              'R14:299-combinations', 'script:R14:260-combinations',
-                             'script:values=big', 'script:values=ulp', 'script:values=mixed']
+                             'script:values=big', 'script:values=ulp', 'script:values=mixed'] + r1516.REQUIRED
     try:
         correspondence(ctx, quick)
     except core.Infra as e:
@@ -2858,6 +2865,7 @@ def check(ctx):
         ctx.required_branches = []
     witnesses(ctx)
     oracles(ctx, quick)
+    r1516.oracles(ctx, quick)
     if not quick:
         exhaustive_small(ctx)
     ctx.notes.append('Result.update / merge / get_result / mean / var (Generated/C06Result.lean) and '
@@ -2883,3 +2891,4 @@ def search(ctx):
         run_oracle(ctx, 'SimulationResults.append_all_results', gen_appendall_case(ctx.rng))
     for _ in range(1500):
         run_oracle(ctx, 'combine_simulation_results', gen_combine_case(ctx.rng))
+    r1516.search(ctx)
